@@ -77,7 +77,25 @@ def fn_code_hash(fn: Callable, salt: str = None, environment: bytes = None) -> s
             sha256.update(json.dumps(attr_values, sort_keys=True).encode("utf-8"))
             return sha256.hexdigest()[0:16]
         else:
-            return repr(o)
+            return stable_repr(o)
+
+    def stable_repr(o):
+        """
+        `repr` of a constant, except that the elements of a frozenset (what the compiler
+        makes of a set literal) are listed in sorted order: their iteration order follows
+        the string hash randomization of the process and must not leak into the hash.
+
+        """
+        if isinstance(o, frozenset):
+            return "frozenset({" + ", ".join(sorted(stable_repr(x) for x in o)) + "})"
+        if isinstance(o, tuple) and any(isinstance(x, (frozenset, tuple)) for x in o):
+            return (
+                "("
+                + ", ".join(stable_repr(x) for x in o)
+                + ("," if len(o) == 1 else "")
+                + ")"
+            )
+        return repr(o)
 
     if isinstance(fn, MementoFunctionType):
         memento_fn = fn  # type: MementoFunctionType
